@@ -56,7 +56,7 @@ class ProbabilisticAgent(AbstractScriptedAgent, discriminator="probabilistic-age
     @property
     def probabilities(self) -> Dict[str, int]:
         """Convenience method to view the probabilities of the Agent."""
-        return np.asarray(list(self.config.agent_settings.action_probabilities.values()))
+        return np.asarray([p for _, p in sorted(self.config.agent_settings.action_probabilities.items())])
 
     def get_action(self, obs: ObsType, timestep: int = 0) -> Tuple[str, Dict]:
         """
